@@ -206,7 +206,19 @@ impl<'a> TraceGen<'a> {
         } else {
             rng.pick(PLATFORM_CLASSES).to_string()
         };
-        let message = if rng.chance(2, 3) { Some(rng.pick(MESSAGES).to_string()) } else { None };
+        let message = match rng.below(12) {
+            0..=3 => None,
+            4 => {
+                // a message that is exactly a class name of the universe (e.g. ClassNotFoundException)
+                let c = rng.pick(&self.names.classes);
+                if c.is_empty() || c.contains('\0') || c.trim() != c.as_str() {
+                    Some("x".to_string())
+                } else {
+                    Some(c.clone())
+                }
+            }
+            _ => Some(rng.pick(MESSAGES).to_string()),
+        };
         TThrowable { class, message }
     }
 
@@ -397,6 +409,14 @@ impl<'a> TextGen<'a> {
                         // a throwable-looking line that is not first and has no prefix
                         let t = self.tg.throwable(rng);
                         v.push(TextLine { text: t.print(), kind: LineKind::Opaque });
+                    }
+                    3 if v.iter().any(|l| matches!(l.kind, LineKind::Frame(_))) => {
+                        // the same call site as the previous frame line, spelled differently
+                        let prev = v.iter().rev().find_map(|l| if let LineKind::Frame(f) = &l.kind { Some(f.clone()) } else { None }).unwrap();
+                        let mut f = prev;
+                        f.file = Some(rng.pick(&["Unknown Source", "Other.java", "SourceFile", "<unknown>"]).to_string());
+                        let indent = *rng.pick(&["    ", "\t", "  ", ""]);
+                        v.push(TextLine { text: format!("{indent}{}", f.print()), kind: LineKind::Frame(f) });
                     }
                     _ => v.push(self.frame_line(rng)),
                 }
